@@ -52,7 +52,7 @@ Section WithNum.
 Context {F : Type} {NF : Num F}.
 
 (* the literal reader (i64::from_str_radix(..) as f64) on printed digits: every non-negative
-   i64 is read as itself; what does not fit an i64 is not read at all *)
+   i64 is read as itself; what does not fit an i64 is declined by the based reader *)
 Theorem C13_from_radix_printed : forall b upper n, 2 <= b <= 36 -> 0 <= n < 2 ^ 63 ->
   from_radix b (radix_digits 70 upper b n []) = Some (fofZ n : F).
 Proof. exact from_radix_printed. Qed.
@@ -79,8 +79,8 @@ Theorem C13_print_read : forall cfg lang year (x : F) t, based t -> 0 <= as_i64 
     from_radix (base_of t) ds = Some (fofZ (as_i64 x) : F).
 Proof. exact print_read. Qed.
 
-(* negative values print a text that is not an i64 literal: it is skipped when read, never
-   misread *)
+(* negative values print their 64-bit two's complement, a text the based reader declines (it
+   is not an i64 literal) *)
 Theorem C13_print_negative : forall cfg lang year (x : F) t, based t -> as_i64 x < 0 ->
   exists ds,
     item_print cfg lang year (INumber x t) = Ok (prefix_of t ++ ds) /\
@@ -143,7 +143,8 @@ Theorem C13_print_read_Q : forall cfg lang year (n : Z) t, based t -> 0 <= n < 2
     from_radix (base_of t) ds = Some (fofZ n : Qc).
 Proof. exact print_read_Q. Qed.
 
-(* binary64: 0 and 2^k - 1, 2^k, 2^k + 1 for k <= 52 are held exactly ... *)
+(* binary64, by computation only (no axiom): 0 and 2^k - 1, 2^k, 2^k + 1 for k <= 52 are held
+   exactly ... *)
 Theorem C13_binary64_family : forall n, In n (pow2_family 52) -> as_i64 (fofZ n : float) = n.
 Proof. exact as_i64_fofZ_family. Qed.
 
@@ -156,6 +157,20 @@ Theorem C13_print_read_family64 : forall cfg lang year n t, based t -> In n (pow
     from_radix (base_of t) ds = Some (fofZ n : float).
 Proof. exact print_read_family64. Qed.
 
+(* binary64 in general: every integer 0 <= n < 2^53 is held exactly (from the Floats library's
+   specification axioms Prim2SF_SF2Prim and FloatAxioms.eqb_spec), so it prints as prefix +
+   its digits and reads back as the same float *)
+Theorem C13_binary64_exact : forall n, 0 <= n < 2 ^ 53 -> as_i64 (fofZ n : float) = n.
+Proof. exact as_i64_fofZ_64. Qed.
+
+Theorem C13_print_read_64 : forall cfg lang year n t, based t -> 0 <= n < 2 ^ 53 ->
+  exists ds,
+    item_print cfg lang year (INumber (fofZ n : float) t) = Ok (prefix_of t ++ ds) /\
+    ds = radix_digits 70 (upper_of t) (base_of t) n [] /\
+    radix_value (base_of t) ds 0 = Some n /\
+    from_radix (base_of t) ds = Some (fofZ n : float).
+Proof. exact print_read_64. Qed.
+
 (* through the whole pipeline (number regexes, rule matching, interpreter, formatter), default
    configuration: 'n to <base>' prints prefix + digits of n with value n and the type of the
    base, and that printed text, entered as a line, is again the number n of that type and
@@ -165,6 +180,41 @@ Theorem C13_end_to_end_family :
   forallb (e2e Octal) (pow2_family 52) = true /\
   forallb (e2e Binary) (pow2_family 20) = true.
 Proof. exact e2e_family. Qed.
+
+(* the whole-line read-back, restricted by the decidable predicate hex_currency_free (Proofs/C13.v:
+   no digit followed by a maximal letter run that read_currency accepts).  On every n < 1024 and
+   the listed larger values, `n to hex` followed by its printed text round-trips EXACTLY when the
+   printed literal satisfies the predicate; the 2^k family lies inside it, the refuted
+   witnesses outside *)
+Theorem C13_readback_iff_hex_currency_free :
+  forallb (fun n => Bool.eqb (e2e Hexadecimal n) (hex_currency_free (printed_hex n)))
+          (map Z.of_nat (seq 0 1024) ++ [2800; 3281; 6893; 15583; 182997; 5749713; 3005; 64721; 3735928559])
+  = true.
+Proof. exact readback_iff_free. Qed.
+
+Theorem C13_end_to_end_family_free : forall n, In n (pow2_family 52) ->
+  hex_currency_free (printed_hex n) = true /\ e2e Hexadecimal n = true.
+Proof. exact e2e_family_free. Qed.
+
+Theorem C13_refuted_not_free :
+  map (fun n => hex_currency_free (printed_hex n)) [205; 175; 6893] = [false; false; false].
+Proof. exact refuted_not_free. Qed.
+
+(* KNOWN FINDING C13-K1, class C13-hex-currency (known_findings.json; reproduced by the model): a hex
+   literal in which a digit is followed by letters that spell a currency code (aed bbd cad cdf;
+   xaf xcd after the leading 0) is taken by the money regex, which runs before the number
+   regexes: `205 to hex` prints 0xCD but the line `0xCD` is 0 XCD, not 205.  The round trip of
+   the statement therefore FAILS for such n at the level of whole lines; it holds at the level
+   of the literal reader (C13_print_read: the digits after the prefix read back) *)
+Theorem C13_readback_refuted :
+  run (s "205 to hex") = [Some (s "0xCD", Some (TNumber (f64_of_Z 205) Hexadecimal))] /\
+  run (s "0xCD") = [Some (s "$0,00", Some (TMoney (f64_of_Z 0) (s "XCD")))] /\
+  run (s "175 to hex") = [Some (s "0xAF", Some (TNumber (f64_of_Z 175) Hexadecimal))] /\
+  run (s "0xAF") = [Some (s "0,00F", Some (TMoney (f64_of_Z 0) (s "XAF")))] /\
+  run (s "6893 to hex") = [Some (s "0x1AED", Some (TNumber (f64_of_Z 6893) Hexadecimal))] /\
+  run (s "0x1AED") = [None] /\
+  e2e Hexadecimal 205 = false /\ e2e Hexadecimal 175 = false /\ e2e Hexadecimal 6893 = false.
+Proof. exact readback_refuted. Qed.
 
 (* non-vacuity: concrete lines through the pipeline; 2147483648 is the repaired saturation case *)
 Theorem C13_examples :
@@ -202,5 +252,11 @@ Print Assumptions C13_convert_tables.
 Print Assumptions C13_print_read_Q.
 Print Assumptions C13_binary64_family.
 Print Assumptions C13_print_read_family64.
+Print Assumptions C13_binary64_exact.
+Print Assumptions C13_print_read_64.
 Print Assumptions C13_end_to_end_family.
+Print Assumptions C13_readback_iff_hex_currency_free.
+Print Assumptions C13_end_to_end_family_free.
+Print Assumptions C13_refuted_not_free.
+Print Assumptions C13_readback_refuted.
 Print Assumptions C13_examples.
